@@ -19,6 +19,9 @@ type CaseC08 struct {
 	Feed      *sgen.Feed // stop_times and shapes rows grouped and ascending
 	STPerm    []int      // row i of the permuted stop_times.txt is row STPerm[i] of Feed.StopTimes
 	ShapePerm []int
+	// Primers are earlier ParseStatic calls in the same process: the feed cut down to its first k trips (rows reversed), for
+	// each k listed - feeds of other sizes before the one that is checked. The result must not depend on them.
+	Primers []int `json:",omitempty"`
 }
 
 var c08Rec = vt.NewRecorder("C08", "TestC08",
@@ -56,6 +59,29 @@ func checkC08(c CaseC08) error {
 	pf.Shapes, ok2 = applyPerm(base.Shapes, c.ShapePerm)
 	if !ok1 || !ok2 {
 		return vt.Failf("malformed case: not permutations")
+	}
+	for _, k := range c.Primers {
+		if k < 0 || k > len(base.Trips) {
+			continue
+		}
+		small := *base
+		small.Trips = base.Trips[:k]
+		keep := map[string]bool{}
+		for _, tr := range small.Trips {
+			keep[tr.ID] = true
+		}
+		small.StopTimes, small.Frequencies = nil, nil
+		for i := len(base.StopTimes) - 1; i >= 0; i-- {
+			if keep[base.StopTimes[i].TripID] {
+				small.StopTimes = append(small.StopTimes, base.StopTimes[i])
+			}
+		}
+		for _, fr := range base.Frequencies {
+			if keep[fr.TripID] {
+				small.Frequencies = append(small.Frequencies, fr)
+			}
+		}
+		parseStatic(small.Tables(), sgen.Canonical(), false)
 	}
 	s, err := parseStatic(pf.Tables(), sgen.Canonical(), false)
 	if err != nil {
@@ -180,6 +206,11 @@ func propC08(t *rapid.T) {
 	p1, k1 := genRowPerm(t, "st", g1)
 	p2, k2 := genRowPerm(t, "shape", g2)
 	c := CaseC08{Feed: f, STPerm: p1, ShapePerm: p2}
+	if rapid.IntRange(0, 2).Draw(t, "primers?") == 0 && len(f.Trips) <= 40 {
+		for i := rapid.IntRange(1, 3).Draw(t, "nPrimers"); i > 0; i-- {
+			c.Primers = append(c.Primers, rapid.IntRange(0, len(f.Trips)).Draw(t, "primerTrips"))
+		}
+	}
 	c.Env = genEnv(t)
 	cls08 := []string{"stop_times:" + k1, "shapes:" + k2}
 	if many {
